@@ -166,7 +166,8 @@ var SkewSelf string
 func Variants(tier string) []Variant {
 	v := []Variant{
 		{Name: "same-config-fresh-process"},
-		{Name: "gomaxprocs1-tz-mingas-iavlcache", Env: []string{"GOMAXPROCS=1", "TZ=Pacific/Kiritimati"}, Args: []string{"-mingas", "0.5loya", "-iavl", "1"}},
+		// (telemetry switched on as well since seeded change C01-h: another entry of the node's own app.toml)
+		{Name: "gomaxprocs1-tz-mingas-iavlcache-telemetry", Env: []string{"GOMAXPROCS=1", "TZ=Pacific/Kiritimati"}, Args: []string{"-mingas", "0.5loya", "-iavl", "1", "-telemetry"}},
 		{Name: "goleveldb-pruning-everything", Env: []string{"GOMAXPROCS=16", "TZ=America/Anchorage"}, Args: []string{"-db", "goleveldb", "-pruning", "everything"}},
 	}
 	// "never depends on wall-clock time": replicas whose machine clock is ten years behind / ahead of the leader's (the
